@@ -56,9 +56,9 @@ CHECKS["C08"] = {
   "technique": TECH,
 }
 CHECKS["C09"] = {
-  "text": "Every path of the public entry points within reach (all selectors incl. VoronoiFPS, StandardFlexibleScaler, KernelNormalizer, SparseKernelCenterer, QuickShift, SparseKDE constructor, pairwise distances, orthogonalizers with copy=True, prediction rigidities) is executed on symbolic object arrays, which make aliasing observable exactly as in numpy: after each call every caller-supplied array must hold the identical terms, get_params() must be unchanged by fit, fit returns self, fit_transform equals fit+transform, and two-step histories (other data, with-y then without-y, larger then smaller, repeated call) must leave the attribute set and values of a fresh estimator.",
+  "text": "Every path of the public entry points within reach (all selectors incl. VoronoiFPS, KernelPCovR.fit on a caller-supplied precomputed kernel with centring, StandardFlexibleScaler, KernelNormalizer, SparseKernelCenterer, QuickShift, SparseKDE constructor, pairwise distances, orthogonalizers with copy=True, prediction rigidities) is executed on symbolic object arrays, which make aliasing observable exactly as in numpy: after each call every caller-supplied array must hold the identical terms, get_params() must be unchanged by fit, fit returns self, fit_transform equals fit+transform, and two-step histories (other data, with-y then without-y, larger then smaller, repeated call) must leave the attribute set and values of a fresh estimator.",
   "design_ref": "DESIGN.md 2/C09",
-  "note": "validators stubbed with sklearn's aliasing contract for float64 C-order writeable input (worst case); PCovR/KernelPCovR/Ridge2FoldCV/OrthogonalRegression/DirectionalConvexHull/reconstruction measures and SparseKDE.fit are outside this check; three defects repaired, one recorded (VoronoiFPS calibrated full_fraction, pinned by a test)",
+  "note": "validators stubbed with sklearn's aliasing contract for float64 C-order writeable input (worst case); PCovR / KernelPCovR (except the precomputed-kernel configuration) / Ridge2FoldCV / OrthogonalRegression / DirectionalConvexHull / reconstruction measures and SparseKDE.fit are outside this check; three defects repaired, one recorded (VoronoiFPS calibrated full_fraction, pinned by a test)",
   "technique": TECH,
 }
 CHECKS["C14"] = {
